@@ -57,4 +57,7 @@ func c06(r *ev.Result, tier string) {
 		budget = 12 * time.Minute
 	}
 	exploreProfiles(r, budget, c06Profiles(isQuick(tier))...)
+	if !isQuick(tier) {
+		brokerRacePass(r)
+	}
 }
